@@ -8,7 +8,12 @@ Tie to the code, without source hooks: the REAL Decoder.infer / transcribe_batch
 over batch histories; (i) the cache tensors are snapshotted around every step to obtain the real write set and
 re-allocations, compared with the model's; (ii) every slot the model calls invalid is POISONED with NaN before each
 step and the output must be NaN-free and bit-identical to the unpoisoned run: read-set within valid-set on the real code.
-NOT decided by proof: float equality cached vs. uncached vs. teacher-forced (checked differentially, 1e-4).
+Functional model (Lean, Model/Decoder): for EVERY choice of the layer functions, cached step-by-step decoding from ANY
+stale state = step-by-step recomputation = the full masked pass (theorems cached_eq_full, uncached_eq_full, full_prefix,
+history_independent).  Tie: the driver prints the model's computation as TERMS over free function symbols (kv, sa, pm, ca, add,
+n1..n3, ff per layer); the harness EVALUATES these terms with the real modules' weights and kernels and compares the values
+with what the real Decoder.infer (cached, uncached, after a history) and the real masked TransformerDecoder.forward return.
+NOT decided by proof: that float32 kernels evaluate the same term to the same number on both routes (checked, 1e-4).
 """
 import copy
 import math
@@ -66,6 +71,7 @@ def run(ctx):
     ctx.assumptions += ['PARTIAL: numerical equality of float32 computations is checked differentially (1e-4), not proved',
                         'PyTorch kernels act lane-wise along the batch dimension (linear, bmm, softmax, LayerNorm)']
     reqs, impl = [], []
+    dreqs, dimpl = [], []
     n = 16 if ctx.quick() else 40
     for it in range(n):
         net, cfg = build_model(rng, torch, transformer)
@@ -134,6 +140,12 @@ def run(ctx):
                         ctx.violation('reads-invalid-slot', 'decoding reads a cache slot that was not written in this batch at an earlier step (NaN poisoning)', inp, bi)
                     elif not torch.equal(lg, ref[bi][1]):
                         ctx.violation('poison-changes-result', 'poisoning invalid cache slots changed the result', inp, bi)
+                # (f) dataflow: forced symbols through every real route, to be compared with the value of the model's terms
+                xb = hist[-1]
+                xd = np.random.RandomState(rng.randrange(2 ** 31)).randint(0, 256, size=(xb.shape[0], 3, 16, rng.choice([32, 48, 64]))).astype(np.uint8)
+                dreq, dinp, dobs = dataflow_case(ctx, rng, torch, net, cfg, eng, xd, fresh_net)
+                dreqs.append(dreq)
+                dimpl.append((dinp, dobs))
         except Exception as e:
             ctx.violation('raises:' + type(e).__name__, 'transformer decoding raised %r' % (e,), inp)
             continue
@@ -205,8 +217,165 @@ def run(ctx):
                 ctx.disagree('C20 cache protocol differs: ' + bad, inp, None, None)
             else:
                 ctx.traces_validated += 1
+        with torch.no_grad():
+            for r, (dinp, dobs) in zip(common.Driver(ctx).batch(dreqs), dimpl):
+                dataflow_compare(ctx, r, dinp, dobs)
+                ctx.evaluations += 1
     else:
         ctx.notes.append('driver unavailable: correspondence skipped, oracle only')
+
+
+class TermEval:
+    """Evaluates the terms printed by the Lean model (Dec.Term) with the weights and kernels of a real TransformerOCR decoder."""
+
+    def __init__(self, net, x_emb, enc):
+        import torch
+        import torch.nn.functional as F
+        self.torch, self.F = torch, F
+        self.dec = net.trans_decoder
+        self.x, self.enc = x_emb, enc
+        self.table = {}
+        self.nodes = []
+        self.val = {}
+
+    def intern(self, node):
+        if len(node) == 2:
+            key = ('var', node[0], node[1])
+        else:
+            key = (node[0], node[1]) + tuple(self.intern(a) for a in node[2])
+        i = self.table.get(key)
+        if i is None:
+            i = len(self.nodes)
+            self.table[key] = i
+            self.nodes.append(key)
+        return i
+
+    def attend(self, mha, q_in, kv):
+        """q_in: (B, E); kv: (S, B, 2E) projected keys and values"""
+        torch, F = self.torch, self.F
+        E = q_in.shape[-1]
+        H = mha.num_heads
+        D = E // H
+        B = q_in.shape[0]
+        q = F.linear(q_in, mha.in_proj_weight[:E], mha.in_proj_bias[:E]) * (float(D) ** -0.5)
+        k, v = kv[..., :E], kv[..., E:]
+        q = q.reshape(1, B * H, D).transpose(0, 1)
+        k = k.reshape(-1, B * H, D).transpose(0, 1)
+        v = v.reshape(-1, B * H, D).transpose(0, 1)
+        w = torch.softmax(torch.bmm(q, k.transpose(1, 2)), dim=-1)
+        o = torch.bmm(w, v).transpose(0, 1).reshape(1, B, E)[0]
+        return F.linear(o, mha.out_proj.weight, mha.out_proj.bias)
+
+    def value(self, i):
+        if i in self.val:
+            return self.val[i]
+        torch, F = self.torch, self.F
+        key = self.nodes[i]
+        if key[0] == 'var':
+            if key[1] == 'x':
+                r = self.x[key[2]]
+            elif key[1] == 'mem' and key[2] == 0:
+                r = self.enc
+            else:
+                raise KeyError('the model reads %s %d' % (key[1], key[2]))
+        else:
+            f, l = key[0], key[1]
+            layer = self.dec.layers[l]
+            a = [self.value(j) for j in key[2:]]
+            E = self.x.shape[-1]
+            if f == 'kv':
+                sa = layer.self_attn
+                r = F.linear(a[0], sa.in_proj_weight[E:], sa.in_proj_bias[E:])
+            elif f == 'sa':
+                r = self.attend(layer.self_attn, a[0], torch.stack(a[1:]))
+            elif f == 'pm':
+                ca = layer.multihead_attn
+                r = F.linear(a[0], ca.in_proj_weight[E:], ca.in_proj_bias[E:])
+            elif f == 'ca':
+                r = self.attend(layer.multihead_attn, a[0], a[1])
+            elif f == 'add':
+                r = a[0] + a[1]
+            elif f == 'n1':
+                r = layer.norm1(a[0])
+            elif f == 'n2':
+                r = layer.norm2(a[0])
+            elif f == 'n3':
+                r = layer.norm3(a[0])
+            elif f == 'ff':
+                r = layer.linear2(layer.activation(layer.linear1(a[0])))
+            else:
+                raise KeyError('unknown symbol ' + f)
+        self.val[i] = r
+        return r
+
+
+def dataflow_case(ctx, rng, torch, net, cfg, eng, x, fresh_net):
+    """Real decoder routes on one batch with a FORCED symbol sequence; returns (request, observation)."""
+    B = x.shape[0]
+    T = rng.randrange(2, 6)
+    nclass = cfg['classes']
+    # fed symbols: boundary first, then arbitrary symbols incl. the boundary and the ignore symbol in the middle
+    toks = torch.tensor([[eng.sentence_boundary_ind] + [rng.randrange(nclass) for _ in range(T - 1)] for _ in range(B)], dtype=torch.long)
+    obs = {}
+    lines = torch.from_numpy(x).float() / 255.0
+    enc = net.encode(lines)
+    x_emb = net.pos_encoder(net.dec_embeder(toks.permute(1, 0)))
+    obs['x'], obs['enc'] = x_emb, enc
+    # (1) cached, on the object with its HISTORY (net has decoded other batches before)
+    obs['cached_hist'] = [net.trans_decoder.infer(x_emb[:t + 1], enc, is_cached=True).clone() for t in range(T)]
+    # (2) cached and uncached on fresh copies
+    n1 = copy.deepcopy(fresh_net)
+    obs['cached'] = [n1.trans_decoder.infer(x_emb[:t + 1], enc, is_cached=True).clone() for t in range(T)]
+    n2 = copy.deepcopy(fresh_net)
+    obs['uncached'] = [n2.trans_decoder.infer(x_emb[:t + 1], enc, is_cached=False).clone() for t in range(T)]
+    # (3) the full masked pass
+    n3 = copy.deepcopy(fresh_net)
+    full = n3.trans_decoder(x_emb, enc, tgt_mask=n3.get_mask(T))
+    obs['full'] = [full[t] for t in range(T)]
+    obs['net'] = fresh_net
+    req = dict(p='C20', op='decoder', layers=cfg['layers'], steps=T, max_len=T + 2)
+    inp = dict(model=cfg, batch=[int(B), int(x.shape[3])], fed=toks.tolist())
+    return req, inp, obs
+
+
+def dataflow_compare(ctx, reply, inp, obs):
+    import torch
+    m = reply.get('ok')
+    if m is None:
+        ctx.disagree('C20 decoder model error', inp, None, reply)
+        return
+    full = m['full']
+    for route in ('cached', 'uncached', 'after_history'):
+        if m[route] != full:
+            ctx.disagree('C20 model: %s run is not the masked pass (theorem instance fails?)' % route, inp, None, None)
+            return
+    ev = TermEval(obs['net'], obs['x'], obs['enc'])
+    try:
+        vals = [ev.value(ev.intern(t)) for t in full]
+    except KeyError as e:
+        ctx.disagree('C20 decoder terms: %s' % e, inp, None, None)
+        return
+    ctx.count('dataflow_term_nodes', len(ev.nodes))
+    worst = {}
+    for route in ('cached_hist', 'cached', 'uncached', 'full'):
+        d = max(float((a - b).abs().max() / (1.0 + b.abs().max())) for a, b in zip(obs[route], vals))
+        if not (d <= 1e-4):
+            worst[route] = d
+    if worst:
+        # model and implementation compute different values: judge the real code directly (the property's own statement)
+        pairs = [('cached', 'uncached', 'cached-vs-uncached', 'cached decoding differs from recomputing every step (forced symbols)'),
+                 ('cached', 'full', 'teacher-forced', 'step-by-step scores differ from the full masked forward pass (forced symbols)'),
+                 ('cached_hist', 'cached', 'history-dependent', 'decoding after other batches differs from decoding with a fresh model (forced symbols)')]
+        found = False
+        for a, b, key, what in pairs:
+            d = max(float((p - q).abs().max() / (1.0 + q.abs().max())) for p, q in zip(obs[a], obs[b]))
+            if not (d <= 1e-4):
+                ctx.violation(key, what, inp, d)
+                found = True
+        if not found:
+            ctx.disagree('C20 decoder: value of the model term differs from every real route', inp, worst, None)
+    else:
+        ctx.traces_validated += 1
 
 
 class Recorder:
